@@ -142,7 +142,7 @@ pub fn dispatch(kind: &str, v: &Value) -> Option<Outcome> {
 pub fn custom_cfg(t: Tier, exact: bool) -> GenCfg {
     use Kind::*;
     let mut cfg = GenCfg::programs(exact);
-    cfg.kinds = vec![(Custom, 34), (Binary, 22), (Leaf, 8), (Unary, 8), (SumReshape, 5), (Matmul, 4), (Rebind, 4), (CloneH, 3), (Backward, 6), (DropH, 2), (IfGt, 2), (Flag, 5)];
+    cfg.kinds = vec![(Custom, 34), (Binary, 22), (Leaf, 8), (Unary, 8), (SumReshape, 5), (Matmul, 4), (Rebind, 4), (CloneH, 3), (Backward, 6), (DropH, 2), (IfGt, 2), (Flag, 5), (Retrack, 4)];
     cfg.flag_results = true;
     cfg.max_steps = t.pick(16, 44);
     cfg.max_elems = t.pick(32, 100);
